@@ -230,6 +230,22 @@ Theorem C01_multijagged_f64_partial :
 Proof. exact MjC.mj_collect_f64. Qed.
 Print Assumptions C01_multijagged_f64_partial.
 
+(* FULL for integer-valued weights (what the CLI's i64 weight files and unit
+   weights become): binary64 exactly as the code computes it, total <= 2^53,
+   every admissible root / sort / block / leaf-order oracle: the model returns
+   Ok, one id per element, every id < part_count.  No premise about the
+   arithmetic (mono_cuts is proved for such weights in C11, Flocq axioms). *)
+Theorem C01_multijagged_f64_integer_weights :
+  forall D (zs : list Z) sorter blk cxlt root ord (k : N) (m : nat) p0,
+  MultiJaggedProofs.root_ok root -> MultiJaggedProofs.sorter_ok sorter cxlt ->
+  MultiJaggedProofs.ord_ok ord (N.to_nat k) ->
+  (1 <= k)%N -> (k < 2 ^ 60)%N -> (1 <= m)%nat -> (1 <= D)%nat ->
+  Forall (fun z => (0 <= z)%Z) zs -> (sumZ zs <= 2 ^ 53)%Z -> length p0 = length zs ->
+  exists p, MultiJagged.multi_jagged MultiJagged.F64 D (length zs) (map (fun z => f64_of_Z z) zs) sorter blk root ord k m p0 = Ok p
+            /\ length p = length zs /\ Forall (fun x => (x < k)%N) p.
+Proof. exact MjC.mj_collect_f64_integer. Qed.
+Print Assumptions C01_multijagged_f64_integer_weights.
+
 (* PARTIAL (2): at exact arithmetic (what the code computes when no f64
    operation rounds; weights >= 0) the model returns Ok -- no panic site is
    reachable, and the model has no loop on fuel -- with every id < part_count. *)
